@@ -98,6 +98,14 @@ INFO = {
              "appears once with the conserved value.",
         note="Hash collisions outside the model; map orders sampled by repetition.",
         ref="6/C10"),
+    "C11": dict(
+        text="TLC compares the implementation-shaped grouping (one label list refined by nested by/without filters, map of streaming "
+             "aggregators per key, bounded heap for topk/bottomk) with the declarative level-by-level meaning for every bounded input "
+             "vector, operator, clause and nesting to depth three; each case is turned into logs producing that input vector and evaluated "
+             "by Engine.Eval (instant and range), random larger cases added, and TLC validates every returned series/value (choices among "
+             "topk ties allowed, counts and must-members enforced, sort order checked on instant vectors).",
+        note="Values as exact rationals (stddev via its square); tie-breaking left open.",
+        ref="6/C11"),
 }
 
 NOT_YET = "no check registered yet in this revision (machinery under construction; see DESIGN.md section 6 for the planned model)"
